@@ -48,8 +48,8 @@ impl Prop for C18 {
 
     fn budget(tier: Tier) -> Budget {
         match tier {
-            Tier::Quick => Budget { cases: 10_000, shards: 16 },
-            Tier::Thorough => Budget { cases: 500_000, shards: 16 },
+            Tier::Quick => Budget { cases: 150000, shards: 16 },
+            Tier::Thorough => Budget { cases: 1200000, shards: 16 },
         }
     }
 
